@@ -59,7 +59,7 @@ func (w *walker) stmt(s ast.Stmt, tail bool) {
 		w.assign(x)
 	case *ast.IncDecStmt:
 		w.expr(x.X)
-		w.storeInto(x.X, x.Pos())
+		w.storeInto(x.X, x.Pos(), false)
 	case *ast.SendStmt:
 		w.expr(x.Chan)
 		w.escapingValue(x.Value)
@@ -69,7 +69,21 @@ func (w *walker) stmt(s ast.Stmt, tail bool) {
 	case *ast.DeferStmt:
 		w.deferStmt(x)
 	case *ast.ReturnStmt:
-		w.exprs(x.Results)
+		for _, r := range x.Results {
+			v := w.expr(r)
+			if tv, ok := w.t.l.info.Types[r]; ok && isRefType(tv.Type) {
+				w.fr.retAlias, _ = addLocs(w.fr.retAlias, v.alias...)
+			}
+		}
+		if len(x.Results) == 0 {
+			for _, ro := range w.fr.results {
+				if ro != nil && isRefType(ro.Type()) {
+					if ls, ok := w.fr.aliasOf(ro); ok {
+						w.fr.retAlias, _ = addLocs(w.fr.retAlias, ls...)
+					}
+				}
+			}
+		}
 		w.doReturn(x.Pos())
 	case *ast.BlockStmt:
 		w.fr.depth++
@@ -137,14 +151,19 @@ func (w *walker) assign(x *ast.AssignStmt) {
 					w.fr.binds[o] = vals[i].fn
 				}
 			}
-			// x := <slice rooted at a parameter that refers to a field's memory>
-			if i < len(x.Rhs) && len(x.Lhs) == len(x.Rhs) && o != nil {
-				if tv, okT := info.Types[x.Rhs[i]]; okT && isRefType(tv.Type) {
-					if loc, okA := w.aliasRoot(x.Rhs[i], false); okA {
-						if _, isPkg := w.t.pkgVar(id); !isPkg {
-							w.fr.alias[o] = loc
-							continue
-						}
+			// x := f(...) where the callee returns a slice/map that refers to a field's content
+			if o != nil && isRefType(o.Type()) {
+				var src []Loc
+				if len(x.Lhs) == len(x.Rhs) && i < len(vals) {
+					if _, isCall := unparen(x.Rhs[i]).(*ast.CallExpr); isCall {
+						src = vals[i].alias
+					}
+				} else if len(x.Rhs) == 1 && len(vals) == 1 {
+					src = vals[0].alias
+				}
+				if len(src) > 0 {
+					if _, isPkg := w.t.pkgVar(id); !isPkg {
+						w.fr.alias[o], _ = addLocs(w.fr.alias[o], src...)
 					}
 				}
 			}
@@ -158,7 +177,7 @@ func (w *walker) assign(x *ast.AssignStmt) {
 				continue // a new local
 			}
 		}
-		w.storeInto(l, x.Pos())
+		w.storeInto(l, x.Pos(), false)
 	}
 }
 
@@ -418,14 +437,15 @@ func (w *walker) rangeStmt(x *ast.RangeStmt, label string) {
 			return
 		}
 	}
-	w.expr(x.X)
+	rv := w.expr(x.X)
+	w.contentRead(x.X, rv, x.Pos()) // iteration reads the content
 	w.loop(x.Pos(), label, true, nil, func() {
 		if x.Tok == token.ASSIGN {
 			if x.Key != nil {
-				w.storeInto(x.Key, x.Pos())
+				w.storeInto(x.Key, x.Pos(), false)
 			}
 			if x.Value != nil {
-				w.storeInto(x.Value, x.Pos())
+				w.storeInto(x.Value, x.Pos(), false)
 			}
 		}
 		w.block(x.Body.List, false)
